@@ -9,7 +9,7 @@ import common
 import msgs as M
 from common import Rng, coq_z, coq_list
 
-PROP_FILES = ["theories/Properties/C04.v"]
+PROP_FILES = ["theories/Properties/C04.v", "theories/Properties/C04Tqc.v"]
 G, E = 0, 0
 
 
@@ -436,7 +436,7 @@ def run(rep):
     broken = []
     po = common.proof_obligations(PROP_FILES)
     if not po["ok"]:
-        broken.append("Coq obligations of Properties/C04.v: " + (po["log_tail"] or str(po["hygiene_problems"] or po["bad_axioms"])))
+        broken.append("Coq obligations of Properties/C04.v, C04Tqc.v: " + (po["log_tail"] or str(po["hygiene_problems"] or po["bad_axioms"])))
     ok, out = common.cargo_build(["qc"], "dev")
     if not ok:
         raise common.MachineryError("cargo build failed: " + out[-2000:])
@@ -476,7 +476,7 @@ def run(rep):
                       {"broken": broken, "first_disagreement": first}, found_input=False)
     rep.cov.update({
         "obligations": po["obligations"] + 1, "discharged": po["discharged"] + (0 if mm else 1),
-        "checker_cmd": "make -C coq theories/Properties/C04.vo + coqc on generated cases_*.v (vm_compute of Model.MsgsRun.run_op)",
+        "checker_cmd": "make -C coq theories/Properties/C04.vo theories/Properties/C04Tqc.vo + coqc on generated cases_*.v (vm_compute of Model.MsgsRun.run_op)",
         "trusted_base": common.standard_trusted_base(["H-SIG: BLS12-381 (blst) aggregate verification accepts iff the aggregated multiset of (signer, message) equals the claimed one; proof of possession against rogue keys"]),
         "theorems": po["theorems"], "axioms": po["axioms"],
         "evaluations": len(cases), "distinct_nontrivial": len(dist),
